@@ -65,6 +65,15 @@ func UseB() int {
 	return f() + g(1) + h() + i.M() + m(a.T{}) + (&s).P() + l.Get()
 }
 `,
+	// d creates the instance H[int] that G[int] (created by b or c) needs: a chain of three
+	// builders (one creates H[int], a second builds G[int] and waits for the first, a third
+	// looks G[int] up while the second is done but still waiting)
+	"d": `package d
+
+import "a"
+
+func UseD() int { return a.H[int](1) + len(a.H[string]("x")) }
+`,
 	"c": `package c
 
 import "a"
@@ -82,6 +91,8 @@ func UseC() int {
 }
 `,
 }
+
+var c18Pkgs = []string{"a", "b", "c", "d"}
 
 type c18Checked struct {
 	fset  *token.FileSet
@@ -107,7 +118,7 @@ func (i c18Importer) Import(path string) (*types.Package, error) {
 func c18TypeCheck() (*c18Checked, error) {
 	w := &c18Checked{fset: token.NewFileSet(), pkgs: map[string]*types.Package{}, files: map[string][]*ast.File{}, infos: map[string]*types.Info{}}
 	imp := c18Importer{w.pkgs, importer.Default()}
-	for _, name := range []string{"a", "b", "c"} {
+	for _, name := range c18Pkgs {
 		f, err := parser.ParseFile(w.fset, name+".go", c18Src[name], parser.SkipObjectResolution)
 		if err != nil {
 			return nil, err
@@ -147,7 +158,7 @@ func c18NewProgram(mode BuilderMode) (*Program, map[string]*Package) {
 	w := c18World
 	prog := NewProgram(w.fset, mode)
 	pk := map[string]*Package{}
-	for _, name := range []string{"a", "b", "c"} {
+	for _, name := range c18Pkgs {
 		pk[name] = prog.CreatePackage(w.pkgs[name], w.files[name], w.infos[name], true)
 	}
 	return prog, pk
@@ -181,7 +192,7 @@ func c18Reachable(pk map[string]*Package) []*Function {
 			}
 		}
 	}
-	for _, name := range []string{"a", "b", "c"} {
+	for _, name := range c18Pkgs {
 		p := pk[name]
 		var ms []string
 		for m := range p.Members {
@@ -317,7 +328,7 @@ func c18Body(sc c18Scenario, out *c18Outcome) func() {
 		switch sc.Driver {
 		case "build":
 			prog.Build()
-			c18AllBuilt(pk, []string{"a", "b", "c"}, "Program.Build", out)
+			c18AllBuilt(pk, c18Pkgs, "Program.Build", out)
 		case "build-twice":
 			prog.Build()
 			var first c18Outcome
@@ -333,15 +344,15 @@ func c18Body(sc c18Scenario, out *c18Outcome) func() {
 			for i := 0; i < 2; i++ {
 				sched.Go(func() {
 					prog.Build()
-					c18AllBuilt(pk, []string{"a", "b", "c"}, "Program.Build", out)
+					c18AllBuilt(pk, c18Pkgs, "Program.Build", out)
 					done++
 					join.Done()
 				})
 			}
 			wait(2)
 		case "per-package":
-			join.Add(3)
-			for _, n := range []string{"c", "b", "a"} {
+			join.Add(4)
+			for _, n := range []string{"d", "b", "c", "a"} {
 				p, n := pk[n], n
 				sched.Go(func() {
 					p.Build()
@@ -400,8 +411,10 @@ func c18Body(sc c18Scenario, out *c18Outcome) func() {
 
 func c18Scenarios() []c18Scenario {
 	var out []c18Scenario
-	for _, m := range []BuilderMode{0, InstantiateGenerics} {
-		for _, d := range []string{"build", "per-package", "concurrent-builds", "methodvalue-during-build", "two-methodvalue-clients", "build-twice"} {
+	// the drivers in which a Build call can return early come first (they matter most when the
+	// time budget is short)
+	for _, d := range []string{"per-package", "concurrent-builds", "two-methodvalue-clients", "methodvalue-during-build", "build", "build-twice"} {
+		for _, m := range []BuilderMode{InstantiateGenerics, 0} {
 			out = append(out, c18Scenario{d, m})
 		}
 	}
@@ -446,7 +459,7 @@ func c18Diff(a, b string) string {
 }
 
 func TestVerifC18(t *testing.T) {
-	res := vx.New("real go/ir builder (instrumented from the current source) on a 3-package program (b and c both need a's generic instances, promoted-method wrappers, bound-method thunks, method-expression thunks) x modes {default, InstantiateGenerics} x drivers {Program.Build, per-package Build from 3 threads, two concurrent Program.Build, MethodValue from a client during Build, two MethodValue clients, Build twice}: every interleaving up to the delay bound and every package start order. Per execution: no deadlock, no channel misuse, no data race on the shared-function fields (happens-before monitor), every reachable function built when Build returns, one Function object per shared function; across executions: the printed IR of all reachable functions equals the BuildSerially build. Non-trivial = execution with >= 1 scheduling or environment deviation.")
+	res := vx.New("real go/ir builder (instrumented from the current source) on a 4-package program (b, c and d need a's generic instances, promoted-method wrappers, bound-method thunks, method-expression thunks) x modes {default, InstantiateGenerics} x drivers {Program.Build, per-package Build from 3 threads, two concurrent Program.Build, MethodValue from a client during Build, two MethodValue clients, Build twice}: every interleaving up to the delay bound and every package start order. Per execution: no deadlock, no channel misuse, no data race on the shared-function fields (happens-before monitor), every reachable function built when Build returns, one Function object per shared function; across executions: the printed IR of all reachable functions equals the BuildSerially build. Non-trivial = execution with >= 1 scheduling or environment deviation.")
 	defer res.Write()
 	sched.KeyString = func(k any) (string, bool) {
 		if p, ok := k.(*types.Package); ok {
